@@ -72,14 +72,18 @@ type Settings struct {
 	StackField   *[]byte `json:"stack_field,omitempty"`
 	LevelValues  *[]byte `json:"level_values,omitempty"` // prefix applied to all Level*Value strings
 	TimeFormat   string  `json:"time_format"`            // "RFC3339" default; "" unix; UNIXMS; UNIXMICRO; UNIXNANO; other = layout
-	DurUnit      int64   `json:"dur_unit"`               // 0 = default (ms)
-	DurInt       bool    `json:"dur_int,omitempty"`
-	FloatPrec    int     `json:"float_prec"`              // -1 default
-	ErrMarshal   string  `json:"err_marshal,omitempty"`   // "" identity | string | obj | othererr | nil | struct
-	StackMarshal string  `json:"stack_marshal,omitempty"` // "" unset | nil | string | error | obj | frames | nilerr (typed-nil error)
-	IfaceMarshal string  `json:"iface_marshal,omitempty"` // "" default | stdjson | wrap
-	ClockSec     int64   `json:"clock_sec,omitempty"`
-	ClockNsec    int64   `json:"clock_nsec,omitempty"`
+	// DefaultCtx: zerolog.DefaultContextLogger is set (a logger writing {"via":"default-context-logger"} to
+	// the root destination): what Ctx returns for a context that carries no logger
+	DefaultCtx   bool   `json:"default_ctx_logger,omitempty"`
+	DurUnit      int64  `json:"dur_unit"` // 0 = default (ms); -1 = DurationFieldUnit 0 (float mode only)
+	DurInt       bool   `json:"dur_int,omitempty"`
+	FloatPrec    int    `json:"float_prec"`              // -1 default
+	ErrMarshal   string `json:"err_marshal,omitempty"`   // "" identity | string | obj | othererr | nil | struct
+	StackMarshal string `json:"stack_marshal,omitempty"` // "" unset | nil | string | error | obj | frames | nilerr (typed-nil error)
+	IfaceMarshal string `json:"iface_marshal,omitempty"` // "" default | stdjson | wrap | fail (an error with the text IfaceErr for every non-nil value)
+	IfaceErr     string `json:"iface_err,omitempty"`
+	ClockSec     int64  `json:"clock_sec,omitempty"`
+	ClockNsec    int64  `json:"clock_nsec,omitempty"`
 	// LevelMarshal: "" default (Level.String) | upper | total (a total mapping in the style of syslog
 	// severities: every level, NoLevel and Disabled included, has a non-empty text of its own)
 	LevelMarshal string `json:"level_marshal,omitempty"`
@@ -90,7 +94,8 @@ type Settings struct {
 
 // HookSpec: kinds  add (Ops are added to the event) | discard | getctx (adds
 // field K with the marker found in the event's Go context) | noop.
-// Wrap: "" direct struct | func (HookFunc) | level (LevelHook with every slot set).
+// Wrap: "" direct struct | func (HookFunc) | level (LevelHook with every slot set) | levelsome |
+// nilptr, nilfield (hooks whose interface data word is nil; they add NilHookKey="ran").
 type HookSpec struct {
 	Kind string `json:"kind"`
 	Wrap string `json:"wrap,omitempty"`
